@@ -179,6 +179,8 @@ type World struct {
 	// cooperative scheduler (one goroutine at a time, yields inside API calls) the mutex must not be used.
 	Free bool
 	mu   sync.Mutex
+	// Deleted: the last deleted incarnation of each pod key, as it was.
+	Deleted map[string]*corev1.Pod
 	// AdminReserved: the addresses an administrator has reserved (Reserve) and not given back (Unreserve).
 	AdminReserved map[string]bool
 	// LoseBindResponse: the next pods/binding call is applied but answered with a time-out.
@@ -324,11 +326,30 @@ func (w *World) DeletePod(key string) {
 		return
 	}
 	delete(w.Pods, key)
+	if w.Deleted == nil {
+		w.Deleted = map[string]*corev1.Pod{}
+	}
+	w.Deleted[key] = pod.DeepCopy()
 	if !w.Cfg.Lag {
 		_ = w.podIdx.Delete(pod)
 	}
 	w.evSeq++
 	w.Pending = append(w.Pending, Event{Kind: "pod-delete", Pod: pod.DeepCopy(), Seq: w.evSeq})
+}
+
+// StaleSyncPodIP plays the part of the periodic pod-IP sync routine reaching the entry of a pod in a list it took while the pod
+// still existed and was running: the last deleted incarnation of key, as it was, is handed to the sync (through the pod update
+// handler, which does nothing else for a running pod).
+func (w *World) StaleSyncPodIP(key string) bool {
+	old := w.Deleted[key]
+	if old == nil || old.Spec.NodeName == "" {
+		return false
+	}
+	q := old.DeepCopy()
+	q.Status.Phase = corev1.PodRunning
+	_ = w.Plugin.UpdatePod(q, q.DeepCopy())
+	w.DrainReleaseQueue()
+	return true
 }
 
 // SetPhase changes the pod phase in the truth and queues the update event.
